@@ -3,13 +3,18 @@ package main
 // C12 — stored sessions are read back intact and let a restarted client resume.
 // Real code exercised: internal/session (NewFromFile, Store, Load) on real files in a per-run
 // scratch directory, and mtproto.NewMTProto / GetAuthKey / GetServerSalt / SaveSession on a
-// pre-filled store (no network; CreateConnection is never called here).
+// pre-filled store; c12.wire also calls CreateConnection + MakeRequest against loopback listeners of its own and
+// reads, like a server that holds only the stored key, the first frame the started client writes.
 
 import (
+	"crypto/sha1"
 	"encoding/base64"
+	"encoding/binary"
 	"encoding/json"
 	"errors"
 	"fmt"
+	"io"
+	"net"
 	"os"
 	"path/filepath"
 	"reflect"
@@ -23,6 +28,7 @@ import (
 	"github.com/xelaj/errs"
 
 	"github.com/xelaj/mtproto"
+	"github.com/xelaj/mtproto/internal/mtproto/objects"
 	"github.com/xelaj/mtproto/internal/session"
 )
 
@@ -405,6 +411,16 @@ func c12Exec(op []string) string {
 			return "bad-op"
 		}
 		return c12Cfg(op[1], op[2], op[3], c12ParseSess(op[4]), c12ParseSess(op[5]))
+	case "c12.wire":
+		if len(op) != 7 {
+			return "bad-op"
+		}
+		salt, err1 := strconv.ParseInt(op[5], 10, 64)
+		ping, err2 := strconv.ParseUint(op[6], 10, 63)
+		if err1 != nil || err2 != nil {
+			return "bad-op"
+		}
+		return c12Wire(op[1], op[2], parseBytes(op[3]), parseBytes(op[4]), salt, ping)
 	}
 	return "bad-op"
 }
@@ -732,6 +748,263 @@ func c12Cfg(kind, state, file string, a, b c12Sess) string {
 	return fmt.Sprintf("client=%s saved=%s other=%s", client, saved, o)
 }
 
+// c12Wire: the started client as the SERVER sees it.
+//
+//	c12.wire <storage> <state> <key> <hash> <salt> <ping id>
+//	<storage>  how the Config names the store: file (AuthKeyFile), given (SessionStorage: the file loader), mem
+//	           (SessionStorage: a c12Mem)
+//	<state>    1: the store holds the session (key, hash, salt, address of loopback listener "stored")   0: nothing
+//
+// Two loopback listeners stand for the two addresses a client could talk to: "stored" (the address in the stored
+// session) and "configured" (Config.ServerHost). The session is stored with the real Store, the client is started
+// (NewMTProto), connected (CreateConnection) and asked for one request (MakeRequest of a ping). The first frame that
+// arrives at either listener is opened by envOpen (x_envelope.go: the envelope from the protocol description, in
+// the direction client -> server) with the STORED KEY and nothing else: the reader looks up the key by the
+// auth_key_id in front of the frame, decrypts, checks msg_key.
+//
+//	client=<C1|C0|Cerr:…> conn=<stored|configured|none> first=<enc|plain|none|…> [keyid=<8 bytes> open=<ok|why>
+//	        salt=<n> seq=<n> body=<request bytes>]
+//
+// keyid is what the frame says; when it is not the stored key's id the rest of the frame is still opened under the
+// stored key (open=auth_key_id_differs;rest=…) so that the report can say whether only the label is wrong.
+type c12Frame struct {
+	at  string
+	pkt []byte
+	bad string
+}
+
+func c12Wire(kind, state string, key, hash []byte, salt int64, ping uint64) string {
+	listen := func() net.Listener {
+		l, err := net.Listen("tcp", "127.0.0.1:0")
+		if err != nil {
+			panic(err)
+		}
+		return l
+	}
+	stored, configured := listen(), listen()
+	frames := make(chan c12Frame, 16)
+	conns := make(chan string, 16)
+	release := make(chan struct{})
+	serve := func(l net.Listener, at string) {
+		for {
+			conn, err := l.Accept()
+			if err != nil {
+				return
+			}
+			select {
+			case conns <- at:
+			default:
+			}
+			go func() {
+				defer conn.Close()
+				_ = conn.SetReadDeadline(time.Now().Add(20 * time.Second))
+				head := make([]byte, 8) // the transport's announcement (intermediate: ee ee ee ee), then the frame's length
+				if _, err := io.ReadFull(conn, head); err != nil {
+					return
+				}
+				f := c12Frame{at: at}
+				if n := binary.LittleEndian.Uint32(head[4:]); string(head[:4]) != "\xee\xee\xee\xee" {
+					f.bad = "no-intermediate-announcement"
+				} else if n > 1<<20 {
+					f.bad = "oversized-frame"
+				} else {
+					f.pkt = make([]byte, n)
+					if _, err := io.ReadFull(conn, f.pkt); err != nil {
+						return
+					}
+				}
+				select {
+				case frames <- f:
+				default:
+				}
+				<-release
+			}()
+		}
+	}
+	go serve(stored, "stored")
+	go serve(configured, "configured")
+	defer func() {
+		close(release)
+		stored.Close()
+		configured.Close()
+	}()
+
+	place, done := c12Place("abs")
+	defer done()
+	sess := &session.Session{Key: key, Hash: hash, Salt: salt, Hostname: stored.Addr().String()}
+	cfg := mtproto.Config{ServerHost: configured.Addr().String()}
+	switch kind {
+	case "file", "given":
+		if state == "1" {
+			if err := session.NewFromFile(place).Store(sess); err != nil {
+				return "store-failed"
+			}
+		}
+		if kind == "file" {
+			cfg.AuthKeyFile = place
+		} else {
+			cfg.SessionStorage = session.NewFromFile(place)
+		}
+	case "mem":
+		mem := &c12Mem{}
+		if state == "1" {
+			mem.s = c12Copy(sess)
+		}
+		cfg.SessionStorage = mem
+	default:
+		return "bad-op"
+	}
+	if state != "0" && state != "1" {
+		return "bad-op"
+	}
+	m, err := mtproto.NewMTProto(cfg)
+	if err != nil {
+		return "client=Cerr:" + c12LoadClass(err)
+	}
+	client := "C?"
+	if f := reflect.ValueOf(m).Elem().FieldByName("encrypted"); f.IsValid() && f.Kind() == reflect.Bool {
+		client = "C0"
+		if f.Bool() {
+			client = "C1"
+		}
+	}
+	// the restarted process connects; a client that (wrongly or rightly) starts a key exchange writes its first frame
+	// inside CreateConnection and then waits for the server: the frame is what is looked at, the call is left behind
+	created := make(chan error, 1)
+	go func() {
+		defer func() {
+			if r := recover(); r != nil {
+				created <- fmt.Errorf("panic: %v", r)
+			}
+		}()
+		created <- m.CreateConnection()
+	}()
+	defer func() {
+		defer func() { _ = recover() }()
+		_ = m.Disconnect()
+		time.Sleep(2 * time.Millisecond)
+	}()
+	var first *c12Frame
+	note := ""
+	select {
+	case err := <-created:
+		if err != nil {
+			note = "create-failed"
+		}
+	case f := <-frames:
+		first = &f
+	case <-time.After(5 * time.Second):
+		note = "create-timeout"
+	}
+	if first == nil && note == "" {
+		go func() {
+			defer func() { _ = recover() }()
+			_, _ = m.MakeRequest(&objects.PingParams{PingID: int64(ping)})
+		}()
+		select {
+		case f := <-frames:
+			first = &f
+		case <-time.After(5 * time.Second):
+		}
+	}
+	conn := "none"
+	select {
+	case conn = <-conns:
+	default:
+	}
+	if first == nil {
+		if note == "" {
+			note = "none"
+		}
+		return fmt.Sprintf("client=%s conn=%s first=%s", client, conn, note)
+	}
+	conn = first.at
+	pkt := first.pkt
+	switch {
+	case first.bad != "":
+		return fmt.Sprintf("client=%s conn=%s first=%s", client, conn, first.bad)
+	case len(pkt) < 8:
+		return fmt.Sprintf("client=%s conn=%s first=short(%d)", client, conn, len(pkt))
+	case string(pkt[:8]) == string(make([]byte, 8)):
+		return fmt.Sprintf("client=%s conn=%s first=plain", client, conn)
+	}
+	if len(key) < 128 {
+		return fmt.Sprintf("client=%s conn=%s first=enc keyid=%s open=key-too-short-for-the-reader", client, conn, hexD(pkt[:8]))
+	}
+	msg, why := envOpen(0, key, pkt, false)
+	open := "ok"
+	if why == "auth_key_id differs" {
+		// what is behind the label, under the stored key
+		fixed := append(append([]byte{}, envSha1(key)[12:20]...), pkt[8:]...)
+		var why2 string
+		msg, why2 = envOpen(0, key, fixed, false)
+		if why2 == "" {
+			why2 = "ok"
+		}
+		open = "auth_key_id_differs;rest=" + strings.ReplaceAll(why2, " ", "_")
+		if why2 != "ok" {
+			return fmt.Sprintf("client=%s conn=%s first=enc keyid=%s open=%s", client, conn, hexD(pkt[:8]), open)
+		}
+	} else if why != "" {
+		return fmt.Sprintf("client=%s conn=%s first=enc keyid=%s open=%s", client, conn, hexD(pkt[:8]), strings.ReplaceAll(why, " ", "_"))
+	}
+	return fmt.Sprintf("client=%s conn=%s first=enc keyid=%s open=%s salt=%d seq=%d body=%s", client, conn, hexD(pkt[:8]), open,
+		int64(msg.Salt), msg.Seq, hexD(msg.Body))
+}
+
+// c12JudgeWire: a client started on a store that holds a session "resumes with that key, salt and address without a
+// new key exchange" — on the wire: its first message goes to the stored address, is not plain text, names the
+// stored key (auth_key_id = SHA1(key)[12:20], computed here with crypto/sha1), opens under the stored key for a
+// reader that holds nothing else, carries the stored salt and the request that was asked for. Whatever the stored
+// hash field holds. On an empty store: a blank client, plain text (the key exchange) to the configured address.
+func c12JudgeWire(op []string, f map[string]string) string {
+	if len(op) != 7 {
+		return ""
+	}
+	kind, state := op[1], op[2]
+	key, hash := parseBytes(op[3]), parseBytes(op[4])
+	how := map[string]string{"file": "Config.AuthKeyFile", "given": "Config.SessionStorage = the file loader", "mem": "Config.SessionStorage = an in-memory storage"}[kind]
+	if state == "0" {
+		if f["client"] != "C0" || f["conn"] != "configured" || f["first"] != "plain" {
+			return fmt.Sprintf("client on an empty store (%s): it must start blank, talk to the configured host and begin with the plain-text key exchange; observed client=%s conn=%s first=%s", how, f["client"], f["conn"], f["first"])
+		}
+		return ""
+	}
+	id := sha1.Sum(key)
+	wantID := hexD(id[12:20])
+	hd := fmt.Sprintf("%d bytes %s", len(hash), showBytes(hash))
+	if string(hash) == string(id[12:20]) {
+		hd += " (= the key's id)"
+	} else {
+		hd += " (not the key's id)"
+	}
+	ctx := fmt.Sprintf("client started on a stored session (%s; %d-byte key with id %s, stored hash field: %s, salt %s)", how, len(key), wantID, hd, op[5])
+	switch {
+	case f["client"] != "C1":
+		return ctx + ": not in the already-encrypted state: client=" + f["client"]
+	case f["conn"] != "stored":
+		return ctx + ": it does not connect to the stored address: conn=" + f["conn"]
+	case f["first"] == "plain":
+		return ctx + ": its first message is plain text — a new key exchange"
+	case f["first"] != "enc":
+		return ctx + ": no first message could be read from it: first=" + f["first"]
+	case f["keyid"] != wantID:
+		return fmt.Sprintf("%s: its first message names auth_key_id %s — a server that holds the stored key cannot find it under that id: the client has not resumed with the stored key (the rest of the frame under the stored key: %s)", ctx, f["keyid"], f["open"])
+	case f["open"] != "ok":
+		return ctx + ": its first message does not open under the stored key: " + f["open"]
+	case f["salt"] != op[5]:
+		return ctx + ": its first message carries salt " + f["salt"]
+	}
+	var want [12]byte
+	binary.LittleEndian.PutUint32(want[:], 0x7abe77ec)
+	v, _ := strconv.ParseUint(op[6], 10, 64)
+	binary.LittleEndian.PutUint64(want[4:], v)
+	if f["body"] != hexD(want[:]) {
+		return ctx + ": its first message is not the request that was made (ping " + op[6] + "): body=" + f["body"]
+	}
+	return ""
+}
+
 // ---- oracle -------------------------------------------------------------------------------------
 
 // c12Same: the loaded session shown as `got` is the stored one. Host names that are not valid
@@ -829,6 +1102,8 @@ func c12Judge(op []string, out string) string {
 		}
 	case "c12.cfg":
 		return c12JudgeCfg(op, kv(out))
+	case "c12.wire":
+		return c12JudgeWire(op, kv(out))
 	}
 	return ""
 }
@@ -1591,6 +1866,79 @@ func c12Gen(g *G) {
 				}
 			}
 		}
+	}
+	// the started client as the server sees it: the first frame it writes, opened with the stored key alone
+	c12GenWire(g)
+}
+
+// c12GenWire: started clients observed on the wire. Keys of 256 bytes (what a key exchange leaves; random, all zero, all
+// ff, counting), every kind of stored hash field: the key's id, 8 other bytes (random, zero, the id with one bit
+// flipped, the id reversed, the first 8 key bytes), other lengths (empty, 1, 7, 9, 20 = a whole SHA-1, 36, 256, the id
+// with a byte more / less), x three ways to name the store; a few empty stores.
+func c12GenWire(g *G) {
+	r := g.R
+	keys := func() []byte {
+		switch r.Intn(8) {
+		case 0:
+			return make([]byte, 256)
+		case 1:
+			b := make([]byte, 256)
+			for i := range b {
+				b[i] = 0xff
+			}
+			return b
+		case 2:
+			b := make([]byte, 256)
+			for i := range b {
+				b[i] = byte(i*7 + 3)
+			}
+			return b
+		}
+		return r.Bytes(256)
+	}
+	type hv struct {
+		name string
+		f    func(key, id []byte) []byte
+	}
+	flip := func(id []byte) []byte {
+		b := append([]byte{}, id...)
+		b[r.Intn(8)] ^= 1 << uint(r.Intn(8))
+		return b
+	}
+	hashes := []hv{
+		{"right", func(k, id []byte) []byte { return id }},
+		{"random8", func(k, id []byte) []byte { return r.Bytes(8) }},
+		{"zero8", func(k, id []byte) []byte { return make([]byte, 8) }},
+		{"bitflip8", func(k, id []byte) []byte { return flip(id) }},
+		{"reversed8", func(k, id []byte) []byte {
+			b := make([]byte, 8)
+			for i := range b {
+				b[i] = id[7-i]
+			}
+			return b
+		}},
+		{"keyhead8", func(k, id []byte) []byte { return k[:8] }},
+		{"sha1head8", func(k, id []byte) []byte { s := sha1.Sum(k); return s[:8] }},
+		{"empty", func(k, id []byte) []byte { return []byte{} }},
+		{"len1", func(k, id []byte) []byte { return id[:1] }},
+		{"len7", func(k, id []byte) []byte { return id[:7] }},
+		{"len9", func(k, id []byte) []byte { return append(append([]byte{}, id...), 0) }},
+		{"len20", func(k, id []byte) []byte { s := sha1.Sum(k); return s[:] }},
+		{"len36", func(k, id []byte) []byte { return r.Bytes(36) }},
+		{"len256", func(k, id []byte) []byte { return r.Bytes(256) }},
+	}
+	for round, n := 0, g.N(2, 40); round < n; round++ {
+		for _, kind := range []string{"file", "given", "mem"} {
+			for _, h := range hashes {
+				key := keys()
+				s := sha1.Sum(key)
+				g.Emit(fmt.Sprintf("c12.wire %s 1 %s %s %d %d", kind, hexD(key), hexD(h.f(key, s[12:20])), c12GenSalt(g), r.U64()>>1),
+					"wire", "wire-hash:"+h.name, "wire-storage:"+kind)
+			}
+		}
+	}
+	for _, kind := range []string{"file", "given", "mem"} {
+		g.Emit(fmt.Sprintf("c12.wire %s 0 %s %s %d %d", kind, hexD(r.Bytes(256)), hexD(r.Bytes(8)), c12GenSalt(g), r.U64()>>1), "wire", "wire-empty-store")
 	}
 }
 
